@@ -342,6 +342,8 @@ def main(c):
             f11_cases.append(cs)
     variant = "A" if f11_cases else "F"
     rnd = bool(prec_cases)
+    f11_ids = {cs["id"] for cs in f11_cases}
+    prec_ids = {cs["id"] for cs in prec_cases}
     ml = c.ocaml_extract("c38", MODEL, EXTRACT, "model_driver.ml")
     lines = []
     for pi, p in enumerate(progs):
@@ -384,10 +386,10 @@ def main(c):
         # (1) the documented contract
         bad = meets(sp, o, cs)
         if bad:
-            if cs in prec_cases:
+            if cs["id"] in prec_ids:
                 report(c, "precG", K_PREC_G, "bounds are emitted with 6 significant digits in the test (declared %s): %s\nobserved: %s" % (
                     [(v["bounds"], v["phys"]) for v in p["inputs"] + [p["output"]]], describe(p, cs), "; ".join(bad)), rep, 1)
-            elif cs in f11_cases:
+            elif cs["id"] in f11_ids:
                 report(c, "f11", K_F11, "errno is not restored: %s\nobserved: %s" % (describe(p, cs), "; ".join(bad)), rep, 1)
             else:
                 report(c, "contract", "generic:%s:%s:%d:%d:%d:%s" % (p["name"], ",".join(fmt(a) for a in cs["args"]), cs["pol"], cs["nargs"], cs["e0"], cs["oc"]),
@@ -413,7 +415,7 @@ def main(c):
         if not bad and ((o[0], o[1], o[2], o[4]) != (m[0], m[1], m[2], m[4]) or not same_ret):
             report(c, "model", "model:%s:%s:%d:%d:%d:%s" % (p["name"], ",".join(fmt(a) for a in cs["args"]), cs["pol"], cs["nargs"], cs["e0"], cs["oc"]),
                    "the generated code behaves differently from the Gallina model: %s\nobserved %s, model %s" % (describe(p, cs), rep["observed"], mo[2 * i]), rep)
-        elif bad and (cs in prec_cases or cs in f11_cases) and ((o[0], o[1], o[2], o[4]) != (m[0], m[1], m[2], m[4]) or not same_ret):
+        elif bad and (cs["id"] in prec_ids or cs["id"] in f11_ids) and ((o[0], o[1], o[2], o[4]) != (m[0], m[1], m[2], m[4]) or not same_ret):
             report(c, "model", "model-variant:%s" % cs["id"], "the model variant describing the known defect does not reproduce the observation: %s observed %s model %s" % (
                 describe(p, cs), rep["observed"], mo[2 * i]), rep)
     if nanskip:
@@ -424,7 +426,7 @@ def main(c):
     # proofs: the theorem about errno is the positive one unless the defect is observed (then the refutation is checked)
     props = "Properties_C38_finding.v" if variant == "A" else "Properties_C38.v"
     c.notes.append("errno theorem file used: %s; model run with bounds %s" % (props, "rounded to 6 significant digits (as emitted today)" if rnd else "as declared"))
-    res = c.coq(["C38Model.v", "C38Spec.v", "C38Proofs.v", props], timeout=600)
+    res = c.coq(["C38Model.v", "C38Spec.v", "C38Proofs.v", "Properties_C38_common.v", props], timeout=600)
     if not res.ok:
         c.coq_failures(res)
     c.coverage["rule"] = ("%d material properties (4 archetypes + random: 0..4 inputs, lower / upper / two-sided bounds and physical bounds on inputs and output, "
